@@ -294,3 +294,27 @@ Example c17_run_macros_witness :
       (reference_sends cfg [inv 98; inv 99]%N [Accept; Refuse 5 9]%N) =
   [Some ([[112;46;98;58;49;124;99]%N], []); Some ([[112;46;99;58;49;124;99]%N], [EIo 5 9])].
 Proof. vm_compute. split; reflexivity. Qed.
+
+(* ==== added after the audit of 2026-10-02 (selftest/audit/REPORT-2026-10-02.md) ==== *)
+(* ==== added for audit item A.24 (model extension: a user-defined value whose conversion fails) ==== *)
+Require Import Cadence.Proofs.AuditU1.
+(* a macro invoked with a user-defined value whose conversion returns Err(e): no panic, the key,
+   the value and every tag expression are evaluated exactly once in the written order, nothing is
+   handed to the global client's sink and no answer of it consumed, its error handler gets exactly
+   e, once *)
+Theorem c17_user_error : forall cfg inv script e,
+  i_arg inv = AUserErr e ->
+  let s := run_macro (Some cfg) inv script in
+  m_panicked s = false /\ m_stuck s = false /\
+  m_evals s = eval_order (length (i_tags inv)) /\
+  m_emitted s = [] /\ m_handled s = [e] /\ m_script s = script.
+Proof. exact user_error_macro. Qed.
+
+Example c17_user_error_witness :
+  let cfg := {| c_prefix := []; c_tags := []; c_container := None |} in
+  let inv := {| i_macro := StatsdGauge; i_key := [107]%N; i_arg := AUserErr (EIo 5 9);
+                i_tags := [([97]%N, [98]%N)] |} in
+  let s := run_macro (Some cfg) inv [Refuse 7 1] in
+  (m_panicked s, m_stuck s, m_emitted s, m_handled s, m_script s, m_evals s) =
+  (false, false, [], [EIo 5 9], [Refuse 7 1], [XKey; XVal; XTagKey 0; XTagVal 0]).
+Proof. exact user_error_macro_witness. Qed.
